@@ -12,6 +12,7 @@ import (
 	metav1 "k8s.io/apimachinery/pkg/apis/meta/v1"
 
 	proxyv1alpha1 "github.com/kubewharf/kubegateway/pkg/apis/proxy/v1alpha1"
+	"github.com/kubewharf/kubegateway/pkg/ratelimiter/limiter"
 	rlutil "github.com/kubewharf/kubegateway/pkg/ratelimiter/util"
 
 	"kgsim/sim"
@@ -451,8 +452,38 @@ func RunC07Overlap(r *sim.Run) {
 		}
 		return out
 	}
+	// one run in two starts with the pool handed out: every instance reports, one after
+	// the other, that it uses all it has, until nobody grows any more - the rounds
+	// below then happen at the limit, where over-commitment shows
+	if t.Draw(2) == 0 {
+		for k, still := 0, 0; k < 60 && still < len(insts); k++ {
+			in := insts[k%len(insts)]
+			_ = rp.RL.Heartbeat(in.id)
+			used := in.last.q
+			if used < 1 {
+				used = 1
+			}
+			ans, err := rp.RL.UpdateRateLimitConditionStatus(up, allocReport(up, in.id, "mif", in.last.q, in.last.known, used))
+			if err != nil {
+				break
+			}
+			q := in.last.q
+			for _, it := range ans.Spec.LimitItemConfigurations {
+				if it.Name == "mif" && it.MaxRequestsInflight != nil {
+					q = it.MaxRequestsInflight.Max
+				}
+			}
+			if q == in.last.q && in.last.known {
+				still++
+			} else {
+				still = 0
+			}
+			in.last = quota{q: q, known: true}
+		}
+		r.Probe("pool_handed_out_before_the_rounds")
+	}
 	rounds := t.Range(3, 12)
-	overlapped, limitChanges := 0, 0
+	overlapped, limitChanges, reclaims := 0, 0, 0
 	for round := 0; round < rounds && !r.Violated(); round++ {
 		r.Step = round
 		for _, in := range insts {
@@ -504,6 +535,7 @@ func RunC07Overlap(r *sim.Run) {
 		// one round in three the limit changes while the reports are in flight
 		// (the upstream controller's worker calls the handler with the new object)
 		Lold := L
+		reclaimed := ""
 		if t.Draw(3) == 0 {
 			L = []int32{10, 50, 100, 1000, Lold / 2, Lold * 2}[t.Draw(6)]
 			if L < 1 {
@@ -521,7 +553,22 @@ func RunC07Overlap(r *sim.Run) {
 				}
 			})
 		}
-		if k > 1 || L != Lold {
+		// one round in two an instance that does not report in this round is reclaimed
+		// meanwhile (its heartbeats have timed out: the 1 s sweep's goroutine); it may come
+		// back later, echoing the quota it was last answered
+		if len(chosen) < len(insts) && t.Draw(2) == 0 {
+			victim := perm[k+t.Draw(len(perm)-k)]
+			reclaims++
+			th := w.Sc.Go(fmt.Sprintf("r%d-reclaim-%s", round, victim.id), func() {
+				limiter.KgsimReclaimInstance(rp.RL, victim.id)
+			})
+			if t.Draw(4) != 0 {
+				// the sweep's goroutine is descheduled once at an arbitrary statement
+				th.StallAt, th.StallFor = 1+t.Draw(80), 20+t.Draw(100)
+			}
+			reclaimed = victim.id
+		}
+		if k > 1 || L != Lold || reclaimed != "" {
 			overlapped++
 		}
 		// drive only this round's threads to completion under a drawn schedule
@@ -530,7 +577,7 @@ func RunC07Overlap(r *sim.Run) {
 			if len(el) == 0 {
 				break
 			}
-			w.Sc.Resume(el[t.Draw(len(el))])
+			w.Sc.Resume(w.Sc.Pick(el))
 		}
 		for _, th := range w.Sc.Threads() {
 			if !th.Done() {
@@ -562,6 +609,9 @@ func RunC07Overlap(r *sim.Run) {
 				return
 			}
 		}
+		if reclaimed != "" {
+			parts = append(parts, reclaimed+": reclaimed")
+		}
 		r.Logf("round %d (sum before %d, limit %d -> %d): %s", round, S, Lold, L, strings.Join(parts, "; "))
 		after, err := recordedQuotas(rp, up, ids(), s)
 		if err != nil {
@@ -587,6 +637,7 @@ func RunC07Overlap(r *sim.Run) {
 	r.SimSecs = w.Now().Seconds()
 	r.ProbeN("rounds_with_overlap", overlapped)
 	r.ProbeN("limit_changes_during_reports", limitChanges)
+	r.ProbeN("reclaims_during_reports", reclaims)
 	r.ProbeN("yields", w.Sc.Yields)
 	r.Nontrivial = overlapped > 0
 	r.Sample = map[string]interface{}{"limit": L, "store": storeKind, "instances": nInst, "rounds": rounds, "overlapping_rounds": overlapped}
